@@ -88,4 +88,19 @@ CHECKS = {
         ref="5 C12, App. A.4", note="Trusted: TLC, pysam FASTA fetch used by gaftools itself, harness FASTA/GAF writers. Penalties assumed to be pywfa's defaults (4/6/2). Bounds: slices <=5/6 bases, <=1/2 edits exhaustively; random reads up to ~1.2 kb.",
         technique="TLC generative enumeration with the alignment automaton + TLC replay of every emitted CIGAR through the same automaton",
     ),
+    "C06": dict(
+        text="BubbleChain.tla generates chromosomes with a chain grammar and checks the construction against RGFA.Decomp (scaffold nodes = articulation points, bubbles = blocks minus articulation points); gaftools order_gfa runs on every generated graph in base / shuffled / reversed+gz / stale-tag variants, for every chromosome order and under other hash seeds; TLC (Check_Chain.V06) decides BO strictly increasing along the reference, NO = 0 / lexicographic 1..M (LexLess defined in TLA+), disjoint ordered chromosome ranges and independence from line order, stale tags and hash seed.",
+        ref="5 C06", note="Trusted: TLC, the GFA/CSV splitters, Python's sorted() only through the TLA+ LexLess definition it is compared with. The generator's chain structure is itself checked against the declarative decomposition (ConstructionOK) on the single-chromosome configs. Bounds: chains of <=2 (quick) / <=3 (thorough) units exhaustively over 6 bubble kinds and 2 end kinds, all pairs (thorough: triples) of short chromosomes, one 6-unit pattern for long chains (BO >= 10).",
+        technique="TLC model checking of the chain generator against declarative block decomposition + replay through gaftools order_gfa; TLC validation of BO/NO",
+    ),
+    "C07": dict(
+        text="The same graphs decorated (extra S/L tags incl. ':' in Z values, overlaps, links declared from the other end, self-link, H/P/W/comment records) are run through order_gfa with/without --by-chrom, --with-sequence, gz input, and through GFA.write_gfa twice; TLC (Check_Chain.V07) decides segments, sequences, tags (+BO/NO exactly once), canonical links with overlap and tags, multiplicity, S-before-L, (BO,NO) order, CSV content.",
+        ref="5 C07", note="Trusted: TLC, the GFA/CSV splitters, Python's sorted() only through the TLA+ LexLess definition it is compared with. The generator's chain structure is itself checked against the declarative decomposition (ConstructionOK) on the single-chromosome configs. Bounds: chains of <=2 (quick) / <=3 (thorough) units exhaustively over 6 bubble kinds and 2 end kinds, all pairs (thorough: triples) of short chromosomes, one 6-unit pattern for long chains (BO >= 10).",
+        technique="TLC bounded enumeration replayed through order_gfa and GFA load/write; TLC validation of graph equality modulo link orientation",
+    ),
+    "C18": dict(
+        text="The generator adds defects (branching tip on a middle scaffold node; three articulation points on one cycle, with/without inner node) to any subset of chromosomes; for every chromosome order order_gfa runs with the defective chromosomes requested and, as reference, without them; TLC (Check_Chain.V18) decides completion, C06 on the good chromosomes, nothing written or tagged for the skipped ones, and tag/file equality with the reference run.",
+        ref="5 C18", note="Trusted: TLC, the GFA/CSV splitters, Python's sorted() only through the TLA+ LexLess definition it is compared with. The generator's chain structure is itself checked against the declarative decomposition (ConstructionOK) on the single-chromosome configs. Bounds: chains of <=2 (quick) / <=3 (thorough) units exhaustively over 6 bubble kinds and 2 end kinds, all pairs (thorough: triples) of short chromosomes, one 6-unit pattern for long chains (BO >= 10). Chromosomes joined through a haplotype node are not generated yet.",
+        technique="TLC bounded enumeration of defective multi-chromosome graphs + differential replay through order_gfa; TLC validation",
+    ),
 }
